@@ -829,3 +829,53 @@ def rule_fromstrings(P):
         r.add(f, c, ok, "" if ok else f"`{first_line(c)}`: states must be the prefixes {xs}[:{i}] → {xs}[:{i} + 1]", slots=dict(src=a0, label=a1, dst=a2))
     r.min_instances = 2
     return r
+
+
+def rule_trunc_finals(P):
+    r = RuleResult("TRUNC-FINALS", "CFG.truncate_length intersects with the acceptor of all strings of length ≤ max_length: states 0..max_length, "
+                   "an arc t → t+1 for every terminal and every t < max_length, and EVERY state final (state 0 for the empty string, state "
+                   "max_length for strings of exactly the bound)", "strings of every length up to and including the bound are kept")
+    f = P.func("cfg.py::CFG.truncate_length")
+    r.looked_at(f)
+    bound = f.params[1]
+    loops = [n for n in f.node.body if isinstance(n, ast.For) and isinstance(n.iter, ast.Call) and W.call_name(n.iter) == "range" and isinstance(n.target, ast.Name)]
+    finals = [c for c in walk_live(f.node) if isinstance(c, ast.Call) and W.call_name(c) == "add_F" and c.args]
+    if len(loops) != 1 or not finals or len(loops[0].iter.args) != 1:
+        r.undecided(f, f.node, "layer loop / add_F calls not recognised", construct="truncate_length: final states")
+        return r
+    lp = loops[0]
+    t = lp.target.id
+    rng = norm(lp.iter.args[0])
+    covered = set()
+    for c in finals:
+        a0 = norm(c.args[0])
+        inside = W._within(c, lp)
+        if not inside and W.int_const(c.args[0]) == 0:
+            covered.add("0")
+        elif not inside and a0 == bound:
+            covered.add("max")
+        elif inside and not [x for x in W.cfacts(f.node, c) if t in x]:
+            if a0 == t and rng == bound:
+                covered.update({"0", "mid"})
+            elif a0 == t and rng in (f"{bound} + 1", f"1 + {bound}"):
+                covered.update({"0", "mid", "max"})
+            elif a0 in (f"{t} + 1", f"1 + {t}") and rng == bound:
+                covered.update({"mid", "max"})
+            else:
+                r.undecided(f, c, f"`{first_line(c)}` in `for {t} in range({rng})` not recognised", construct="truncate_length: final states")
+                return r
+        else:
+            r.undecided(f, c, f"`{first_line(c)}` not recognised", construct="truncate_length: final states")
+            return r
+    missing = {"0", "mid", "max"} - covered
+    names = {"0": "state 0 (the empty string)", "mid": "the intermediate lengths", "max": f"state {bound} (strings of exactly the bound)"}
+    r.add(f, finals[0], not missing, "" if not missing else "not final: " + ", ".join(names[m] for m in sorted(missing)) + " — those strings get weight zero in the "
+          "truncated grammar", slots=dict(final_states=sorted(covered)), construct="truncate_length: final states")
+    arcs = [c for c in walk_live(lp) if isinstance(c, ast.Call) and W.call_name(c) == "add_arc" and len(c.args) >= 3]
+    ok = len(arcs) == 1 and norm(arcs[0].args[0]) == t and norm(arcs[0].args[2]) in (f"{t} + 1", f"1 + {t}") and rng == bound
+    if arcs and not ok and rng != bound:
+        r.undecided(f, arcs[0], "layer arcs not recognised", construct="truncate_length: layer arcs")
+    else:
+        r.add(f, arcs[0] if arcs else lp, ok, "" if ok else f"layer arcs must go from {t} to {t}+1 for every {t} < {bound}", construct="truncate_length: layer arcs")
+    r.min_instances = 2
+    return r
